@@ -1,6 +1,7 @@
 package worlds
 
 import (
+	"io"
 	"encoding/binary"
 	"context"
 	"errors"
@@ -110,6 +111,10 @@ type respClient struct {
 	TransientEOF bool
 	// TransientFor > 0: the (0, io.EOF) reads go on for that long before the stream continues
 	TransientFor time.Duration
+	// Until: the consumer reads with NextPackageUntil - "nil": without a callback, call after call (a call that reports
+	// the response consumed is recorded as "end-of-response"); "err": one call whose callback fails on the first
+	// package (recorded as "callback-call-returned" with the error it returned), then plain receives.
+	Until string
 	// ZeroNil: stream offsets at which one Read returns (0, nil)
 	ZeroNil []int
 	// Bystander: a second goroutine waits in a blocking receive on another (logical) channel of the connection
@@ -421,8 +426,33 @@ func runResp(cfg simrt.Config, d respDelivery, c respClient) *respResult {
 		if maxErrs == 0 {
 			maxErrs = 4
 		}
+		if c.Until == "err" {
+			_, err := ch.NextPackageUntil(ctx, true, func(tds.Package) (bool, error) { return false, ErrUntilCallback })
+			r := PkgRec{Type: "callback-call-returned", Now: simrt.SimNow()}
+			if err != nil {
+				r.Dump = err.Error()
+				if !errors.Is(err, ErrUntilCallback) {
+					r.Err = err.Error()
+				}
+			}
+			r.Seq = simrt.Record("until-err-ret", "", "", 0)
+			res.Recs = append(res.Recs, r)
+		}
 		for n := 0; n < 20000; n++ {
-			pkg, err := ch.NextPackage(ctx, c.PollEvery == 0)
+			var pkg tds.Package
+			var err error
+			if c.Until == "nil" {
+				_, err = ch.NextPackageUntil(ctx, true, nil)
+				if err == nil || err == io.EOF {
+					r := PkgRec{Type: "end-of-response", Now: simrt.SimNow()}
+					r.Seq = simrt.Record("end-of-response", "", "", 0)
+					res.Recs = append(res.Recs, r)
+					consecutiveErrs = 0
+					continue
+				}
+			} else {
+				pkg, err = ch.NextPackage(ctx, c.PollEvery == 0)
+			}
 			if c.PollEvery > 0 && errors.Is(err, tds.ErrNoPackageReady) {
 				// a consumer that polls: nothing there yet, look again a little later
 				if ctx.Err() != nil {
@@ -651,6 +681,9 @@ func firstDiff(want, got []string) string {
 	}
 	return ""
 }
+
+// ErrUntilCallback is what the failing callback of the consumer mode Until "err" returns.
+var ErrUntilCallback = errors.New("callback rejects the package (harness marker)")
 
 // renderPkg uses a delivered package the way a database driver does.
 func renderPkg(pkg tds.Package) {
